@@ -182,3 +182,29 @@ Definition violation_C02 (c : case_C02) : bool := negb (holds_C02 c).
 
 Definition mismatches_C02 (cs : list case_C02) : list N := indices_where mismatch_C02 cs.
 Definition violations_C02 (cs : list case_C02) : list N := indices_where violation_C02 cs.
+
+(* ------------------------------------------------------------------ handle / project provenance, working directory *)
+(* MODELLING STEP.  The model identifies a project by its canonical root (a [path]) and a job by project + id: HOW a
+   Project object was obtained (init_project, get_project, the constructor; absolute path, path relative to the
+   current working directory, a path with '..' or a trailing separator), what the project directory and its parents
+   are called (glob / shell metacharacters, spaces, non-ASCII), and where the process's working directory points when
+   an operation runs do not exist in the model.  What the harness does is a program over [item_C02]; what the model
+   runs (and what the case records) is its erasure.  That the implementation canonicalises the path once, when the
+   Project object is made, is part of the correspondence and is checked on every provenance the harness generates. *)
+Inductive prov_C02 := PvInitAbs | PvInitRel | PvCtorAbs | PvCtorRel | PvGetAbs | PvGetRel | PvDotDot | PvSlash | PvRelSlash.
+
+Inductive item_C02 :=
+| IOp (o : op)                                  (* an operation of the model's language *)
+| ISession (r : path) (pv : prov_C02)           (* a new Project object for root r, obtained in the way pv *)
+| IChdir (d : nat).                             (* os.chdir to the d-th directory of the scratch area *)
+
+Definition erase_item (it : item_C02) : list op :=
+  match it with
+  | IOp o => [o]
+  | ISession r _ => [ONewSession r]
+  | IChdir _ => []
+  end.
+
+Definition erase_C02 (prog : list item_C02) : list op := flat_map erase_item prog.
+
+Definition run_items (frepr : fl -> str) (prog : list item_C02) : list oval := run frepr w0 0 (erase_C02 prog).
